@@ -21,7 +21,14 @@ SRC = [
     "struct  A{a:u32,b:u32}\nfn f( ){}\n",
     "fn g() {}\n",                     # already formatted
     "// c\nfn  h(a:u8,b:u8)->u8{a+b}\n",
+    # the original BYTES must be recoverable: terminators and a byte-order mark are part of them
+    "fn  k( ) {\r\n    let x=1 ;\r\n}\r\n",
+    "\ufefffn  m( ) {   let y=2 ; }\n",
+    "\ufeffstruct  B{a:u32}\r\nfn n( ){}\n",
 ]
+# every way of asking for the backup protocol
+SPELLINGS = [["--backup"], ["--backup", "--emit", "files"], ["--emit", "files", "--backup"], ["--emit=files", "--backup"],
+             ["--config", "make_backup=true"]]
 
 
 def rustfmt(args, cwd, env=None, timeout=60):
@@ -34,7 +41,7 @@ def rustfmt(args, cwd, env=None, timeout=60):
 
 def formatted(text, d):
     p = os.path.join(d, "probe.rs")
-    open(p, "w").write(text)
+    open(p, "w", newline="").write(text)
     rc, o, e = rustfmt(["--emit", "stdout", "-q", "probe.rs"], d)
     os.remove(p)
     if rc != 0:
@@ -47,7 +54,7 @@ def snapshot(d, stems):
     for s in stems:
         for ext in ("rs", "tmp", "bk"):
             p = os.path.join(d, s + "." + ext)
-            out[s + "." + ext] = open(p).read() if os.path.exists(p) else None
+            out[s + "." + ext] = open(p, newline="", encoding="utf-8").read() if os.path.exists(p) else None
     return out
 
 
@@ -73,6 +80,8 @@ def run(tier, seed, replay):
         texts = [rnd.choice(SRC) for _ in stems]
         if si == 0:
             texts = [SRC[0], SRC[1], SRC[3]]
+        if si == 1:
+            texts = [SRC[4], SRC[5], SRC[6]]
         changed = [i for i, t in enumerate(texts) if fmt_of[t] != t]
         for k in range(1, len(changed) + 1):       # act on the k-th REWRITTEN file
             for pi, pt in enumerate(POINTS):
@@ -98,13 +107,14 @@ def run(tier, seed, replay):
         d = os.path.join(base, "case%d" % ci)
         os.makedirs(d)
         for s, t in zip(stems, c["texts"]):
-            open(os.path.join(d, s + ".rs"), "w").write(t)
+            open(os.path.join(d, s + ".rs"), "w", newline="", encoding="utf-8").write(t)
         env = {}
+        c["flags"] = SPELLINGS[ci % len(SPELLINGS)]
         if c["mode"] == "abort":
             env["RUSTFMT_VERIF_CRASH"] = "%s@%d" % (c["point"], c["k"])
         elif c["mode"] == "fail":
             env["RUSTFMT_VERIF_CRASH"] = "fail:%s@%d" % (c["point"], c["k"])
-        rc, o, e = rustfmt(["--backup"] + [s + ".rs" for s in stems], d, env=env)
+        rc, o, e = rustfmt(c["flags"] + [s + ".rs" for s in stems], d, env=env)
         snap = snapshot(d, stems)
         changed_stems = [s for s, t in zip(stems, c["texts"]) if fmt_of[t] != t]
         # --- property oracle: the invariant for every file of the run
